@@ -3,8 +3,9 @@
 Tie: T (driver/translate/c19_velo.py re-reads the two loops `PassSequence.solve_velocities_backward/forward` and the
 continuity hook implementations on every run -> lean/PyrollModel/Gen/C19.lean: recurrence / seed / tolerance as `Expr`,
 the control skeleton as `Velo.Shape`; the theorems of lean/PyrollProps/C19.lean are re-checked against them)
-  +  K (real sequences of 1-5 roll passes are run with a recording `solve`; the Lean model VeloGen.backward/forward is
-fed the out cross-section areas every real `solve` call left behind and must reproduce the velocities written before
+  +  K (real sequences of 1-5 roll passes are run with a recording `solve`; the Lean model VeloGen.backwardSeq/forwardSeq is
+fed the unit list of the line as the harness arranged it and the out cross-section areas every real `solve` call left behind
+and must reproduce the velocities written before
 every solve call, the number of iterations and the termination decision; every generated hook formula is evaluated
 over Float and compared with the python function it came from).
 The oracle is written from the property text and only reads the real objects after the call.
@@ -27,7 +28,11 @@ RULE = ("real PassSequences: oval/round/box/diamond-square chains of 2-5 two-rol
         "and roll that have no implementation in the tree (names tested by anchored implementations first); neutral plane given as "
         "angle or as point; a history of the sequence object (earlier calculation same/other direction, velocities given at "
         "construction or assigned, plain solve, attributes read before, calculation on another sequence, same in-profile object); "
-        "re-simulation of the mill at the resulting roll speeds. non-trivial = at least one out area differs from the "
+        "re-simulation of the mill at the resulting roll speeds. About a fifth each: three-roll passes (15 %); the speed written as "
+        "int / numpy scalar; an incoming profile carrying a velocity (+ t, x, length, strain) or handed over by an upstream unit; rolls "
+        "with a rotational frequency; a line re-arranged after use (stands added behind / in front, exchanged, removed through "
+        "append/prepend/drop or the live subunits list, after a calculation, a solve or reads of the sequence's lists). All oracle "
+        "clauses read the roll passes the harness itself put into the line. non-trivial = at least one out area differs from the "
         "usable area by > 1e-6 relative; distinct by the rounded case description.")
 ASSUMPTIONS = [
     "what Unit.solve does to the cross-sections is a parameter of the model (S: call number, velocities -> out areas); the "
@@ -41,6 +46,12 @@ ASSUMPTIONS = [
     "pass at the final speed (rtol 1e-9)",
     "the model has no input for the state of the sequence object before the call: independence of that state is checked by the "
     "correspondence on non-fresh sequences (the model fed only the arguments must reproduce every velocity vector)",
+    "the model's input is the unit list of the sequence at the time of the call as the harness arranged it (own list of the unit "
+    "objects, checked against iteration over the sequence, never PassSequence.roll_passes)",
+    "entry_exit_velocity_written_for_every_roll_pass reads class names in pyroll/core/__init__.py; the imported root_hooks list is "
+    "asked for every subclass of BaseRollPass in the package (correspondence)",
+    "a generated case slower than 12 s (quick) / 30 s (thorough) is abandoned and counted: a pass without reduction has NaN results "
+    "on which Unit.solve iterates up to its full count in every unit (minutes per calculation); nothing is claimed about it",
 ]
 TRUSTED_EXTRA = ["AST pattern matcher for the two velocity loops (driver/translate/c19_velo.py); its output is pinned by the "
                  "shape obligations `backward_shape_as_modelled` / `forward_shape_as_modelled` and exercised by the per-iteration correspondence"]
@@ -91,13 +102,17 @@ class Built:
 
 
 def _roll_kwargs(desc, k, roll_speeds):
+    """`k` = index of the pass in the line under test; None for a stand that is only part of the line's history"""
     kw = {}
     neutral = desc.get("neutral")
-    if neutral:
+    if neutral and k is not None:
         kw["neutral_angle" if neutral["kind"] == "angle" else "neutral_point"] = neutral["values"][k]
     ex = desc.get("roll_extras")
-    if ex:
+    if ex and k is not None:
         kw.update(ex[k])
+    rf = desc.get("roll_frequency")
+    if rf:                                   # rolls defined with a rotational frequency (as in the library's examples)
+        kw["rotational_frequency"] = rf[k] if k is not None else rf[-1]
     if roll_speeds is not None:
         kw["rotational_frequency"] = roll_speeds[k]
     return kw
@@ -106,61 +121,225 @@ def _roll_kwargs(desc, k, roll_speeds):
 def _pass_kwargs(desc, k, roll_speeds):
     kw = {}
     ex = desc.get("pass_extras")
-    if ex:
+    if ex and k is not None:
         kw.update(ex[k])
     cv = desc.get("construct_velocities")
-    if cv and roll_speeds is None:           # the mill (roll_speeds given) is driven by its rolls only
+    if cv and roll_speeds is None and k is not None:   # the mill (roll_speeds given) is driven by its rolls only
         kw["velocity"] = cv[k]
     return kw
 
 
-def build(desc, roll_speeds=None):
-    """-> Built(seq, in_profile, cleanup)  from a case description.
-    `roll_speeds` (rotational frequencies, one per pass): build the same mill driven by its rolls instead."""
-    from pyroll.core import Profile, Roll, RollPass, Transport, PassSequence
+def _num(x, kind):
+    """the prescribed speed as the caller writes it: `10.0`, `10`, a numpy scalar (desc keeps the value as a float)"""
+    if not kind or kind == "float":
+        return float(x)
+    import numpy as np
+    if kind == "int":
+        return int(x)
+    return {"np.int64": np.int64, "np.int32": np.int32, "np.float64": np.float64}[kind](x)
+
+
+SPEED_TYPES = ["int", "int", "np.int64", "np.int32", "np.float64"]
+SEQ_READS = ["roll_passes", "units", "transports", "subunits", "len", "iter", "getitem-last", "by-label"]
+ARRANGE_VIA = {
+    # a finishing stand (with its transport) joins the line later
+    "tail": ["append", "subunits.append", "subunits.extend", "subunits+=", "subunits.insert-end", "slice-assign-end"],
+    # a roughing stand is put in front later
+    "head": ["prepend", "subunits.insert-front", "slice-assign-front"],
+    # a stand is exchanged for another one
+    "exchange": ["setitem", "del+insert", "drop+insert", "pop+insert", "remove+insert", "slice-assign"],
+    # the last stand(s) are taken out of the line
+    "remove": ["drop", "del", "pop", "remove", "del-slice", "slice-assign-empty"],
+}
+
+
+def _rearrange(seq, arr, initial, final, new_units):
+    """bring the sequence from `initial` to `final` (lists of unit objects) through the requested part of the public API:
+    PassSequence.append/prepend/drop or the live, parent-maintaining list `seq.subunits`"""
+    kind, via = arr["kind"], arr["via"]
+    sub = seq.subunits
+    if kind == "tail":
+        if via == "append":
+            for u in new_units:
+                seq.append(u)
+        elif via == "subunits.append":
+            for u in new_units:
+                sub.append(u)
+        elif via == "subunits.extend":
+            sub.extend(new_units)
+        elif via == "subunits+=":
+            sub += new_units
+        elif via == "subunits.insert-end":
+            for u in new_units:
+                sub.insert(len(sub), u)
+        elif via == "slice-assign-end":
+            sub[len(sub):] = new_units
+        else:
+            raise ValueError(via)
+    elif kind == "head":
+        if via == "prepend":
+            for u in reversed(new_units):
+                seq.prepend(u)
+        elif via == "subunits.insert-front":
+            for u in reversed(new_units):
+                sub.insert(0, u)
+        elif via == "slice-assign-front":
+            sub[0:0] = new_units
+        else:
+            raise ValueError(via)
+    elif kind == "exchange":
+        i = arr["unit_index"]
+        old, new = initial[i], final[i]
+        if via == "setitem":
+            sub[i] = new
+        elif via == "slice-assign":
+            sub[i:i + 1] = [new]
+        else:
+            if via == "del+insert":
+                del sub[i]
+            elif via == "drop+insert":
+                seq.drop(i)
+            elif via == "pop+insert":
+                sub.pop(i)
+            elif via == "remove+insert":
+                sub.remove(old)
+            else:
+                raise ValueError(via)
+            seq.subunits.insert(i, new)
+    elif kind == "remove":
+        m = len(initial) - len(final)
+        if via == "drop":
+            for _ in range(m):
+                seq.drop(len(seq) - 1)
+        elif via == "del":
+            for _ in range(m):
+                del sub[len(sub) - 1]
+        elif via == "pop":
+            for _ in range(m):
+                sub.pop()
+        elif via == "remove":
+            for u in reversed(initial[len(final):]):
+                sub.remove(u)
+        elif via == "del-slice":
+            del sub[len(final):]
+        elif via == "slice-assign-empty":
+            sub[len(final):] = []
+        else:
+            raise ValueError(via)
+    else:
+        raise ValueError(kind)
+
+
+def build(desc, roll_speeds=None, fresh=False):
+    """-> Built(seq, in_profile, cleanup, current, ...)  from a case description.
+    `roll_speeds` (rotational frequencies, one per pass): build the same mill driven by its rolls instead.
+    `fresh` (implied by roll_speeds): the line under test built in one go, without the history of desc["arrange"].
+    `b.current` is the HARNESS's own list of the roll passes that are in the line right now (kept up to date by
+    `b.rearrange()`); nothing the harness reads afterwards goes through `PassSequence.roll_passes`."""
+    from pyroll.core import Profile, Roll, RollPass, ThreeRollPass, Transport, PassSequence
     b = Built()
     sp = desc["spread"]
     cleanup = []
+    Base = ThreeRollPass if desc.get("pass_kind") == "three" else RollPass
     if sp["kind"] == "none":
-        RP = RollPass
+        RP = Base
     elif sp.get("where") == "core":
-        hf = RollPass.OutProfile.width(_spread_fn(sp))
-        cleanup.append(lambda: RollPass.OutProfile.width.remove_function(hf))
-        RP = RollPass
+        hf = Base.OutProfile.width(_spread_fn(sp))
+        cleanup.append(lambda: Base.OutProfile.width.remove_function(hf))
+        RP = Base
     else:
-        OP = type("C19OutProfile", (RollPass.OutProfile,), {})
-        RP = type("C19RollPass", (RollPass,), {"OutProfile": OP})
+        OP = type("C19OutProfile", (Base.OutProfile,), {})
+        RP = type("C19RollPass", (Base,), {"OutProfile": OP})
         RP.OutProfile.width(_spread_fn(sp))
     b.cleanup = cleanup
+    b.pass_class = RP
     try:
+        def mk_pass(p, k, label):
+            return RP(label=label, roll=Roll(groove=_groove(p["groove"]), nominal_radius=p["radius"],
+                                             **_roll_kwargs(desc, k, roll_speeds)),
+                      gap=p["gap"], **_pass_kwargs(desc, k, roll_speeds))
         units = []
         passes = desc["passes"]
         for k, p in enumerate(passes):
-            units.append(RP(label=f"P{k}", roll=Roll(groove=_groove(p["groove"]), nominal_radius=p["radius"],
-                                                    **_roll_kwargs(desc, k, roll_speeds)),
-                            gap=p["gap"], **_pass_kwargs(desc, k, roll_speeds)))
+            units.append(mk_pass(p, k, f"P{k}"))
             if k < len(passes) - 1:
                 units.append(Transport(label=f"T{k}", length=desc["transports"][k]))
         if desc.get("lead_transport"):
             units.insert(0, Transport(label="T-in", length=desc["lead_transport"]))
         if desc.get("tail_transport"):
             units.append(Transport(label="T-out", length=desc["tail_transport"]))
+        final = list(units)
+        is_pass = lambda u: isinstance(u, RP)
+        arr = desc.get("arrange") if not (fresh or roll_speeds is not None) else None
+        initial, new_units = final, []
+        if arr:
+            kind = arr["kind"]
+            pidx = [i for i, u in enumerate(final) if is_pass(u)]
+            if kind == "tail":               # the last k stands (and what stands between and behind them) come later
+                cut = pidx[len(pidx) - arr["k"] - 1] + 1
+                initial, new_units = final[:cut], final[cut:]
+            elif kind == "head":             # the first k stands come later
+                cut = pidx[arr["k"]]
+                initial, new_units = final[cut:], final[:cut]
+            elif kind == "exchange":         # another stand was at this place
+                i = pidx[arr["index"]]
+                arr = dict(arr, unit_index=i)
+                initial = list(final)
+                initial[i] = mk_pass(arr["old"], None, f"P{arr['index']}-before")
+                new_units = [final[i]]
+            elif kind == "remove":           # further stands behind the line under test
+                initial = list(final)
+                for j, p in enumerate(arr["extra"]):
+                    initial.append(Transport(label=f"T-extra{j}", length=arr["extra_transports"][j]))
+                    initial.append(mk_pass(p, None, f"P-extra{j}"))
+            else:
+                raise ValueError(kind)
+        b.final_units, b.initial_units = final, initial
+        b.current = [u for u in initial if is_pass(u)]
         rec = []
 
+        def _f(get):
+            try:
+                return float(get())
+            except Exception as ex:          # a pass that has no velocity / no out profile (yet): recorded as NaN
+                if not _from_pyroll(ex) and not isinstance(ex, (AttributeError, TypeError)):
+                    raise
+                return math.nan
+
         def rec_solve(self, in_profile):
-            rec.append(("v", [float(rp.velocity) for rp in self.roll_passes]))
+            ps = list(b.current)
+            rec.append(("v", [_f(lambda: rp.velocity) for rp in ps]))
             r = PassSequence.solve(self, in_profile)
-            rec.append(("A", [float(rp.out_profile.cross_section.area) for rp in self.roll_passes]))
+            rec.append(("A", [_f(lambda: rp.out_profile.cross_section.area) for rp in ps]))
             return r
         Seq = type("C19Sequence", (PassSequence,), {"solve": rec_solve})
         kw = {}
         if desc.get("budget") is not None:
             kw["max_iteration_count"] = desc["budget"]
-        b.seq = Seq(units, **kw)
+        b.seq = Seq(list(initial), **kw)
         b.rec = rec
-        b.make_in_profile = lambda: Profile.round(diameter=desc["in_diameter"], temperature=1200 + 273.15,
-                                                  material=["C45", "steel"], flow_stress=100e6, density=7.5e3,
-                                                  specific_heat_capacity=690)
+        b.rearranged = not arr
+
+        def rearrange():
+            if b.rearranged:
+                return
+            _rearrange(b.seq, arr, initial, final, new_units)
+            b.current = [u for u in final if is_pass(u)]
+            b.rearranged = True
+        b.rearrange = rearrange
+
+        def make_in_profile():
+            kwp = dict(diameter=desc["in_diameter"], temperature=1200 + 273.15, material=["C45", "steel"], flow_stress=100e6,
+                       density=7.5e3, specific_heat_capacity=690)
+            ie = desc.get("in_extras")
+            if not ie:
+                return Profile.round(**kwp)
+            if ie.get("via") == "upstream":
+                # the incoming profile is what an upstream unit handed over: it carries that unit's results (velocity, t, x, ...)
+                up = Transport(label="upstream", length=ie["length"])
+                return up.solve(Profile.round(velocity=ie["velocity"], **kwp))
+            return Profile.round(**kwp, **{k: v for k, v in ie.items() if k != "via"})
+        b.make_in_profile = make_in_profile
         b.in_profile = b.make_in_profile()
     except BaseException:
         for c in cleanup:
@@ -169,34 +348,69 @@ def build(desc, roll_speeds=None):
     return b
 
 
+IN_DIAMETER = {"oval-round": 30e-3, "box": 30e-3, "diamond-square": 32e-3, "three-oval-round": 55e-3}
+
+
+def _gen_pass(rng, fam, k, s):
+    """pass number k of a line of the family, `s` = scale of the workpiece at that point -> (pass description, next scale)"""
+    U = rng.uniform
+    s2 = s
+    if fam == "oval-round":
+        if k % 2 == 0:
+            g = {"kind": "oval", "args": dict(depth=8e-3 * s * U(0.95, 1.05), r1=6e-3 * s, r2=40e-3 * s * U(0.95, 1.1))}
+        else:
+            g = {"kind": "round", "args": dict(r1=1e-3 * s, r2=12.5e-3 * s * U(0.98, 1.04), depth=11.5e-3 * s)}
+            s2 = s * 0.8
+    elif fam == "three-oval-round":
+        # grooves of three-roll passes (pad angle 30 degrees), sized like the library's three-roll test line
+        if k % 2 == 0:
+            g = {"kind": "oval", "args": dict(depth=8e-3 * s * U(0.95, 1.05), r1=6e-3 * s, r2=40e-3 * s * U(0.95, 1.1), pad_angle=30)}
+        else:
+            g = {"kind": "round", "args": dict(r1=3e-3 * s, r2=25e-3 * s * U(0.98, 1.04), depth=11e-3 * s, pad_angle=30)}
+            s2 = s * 0.85
+    elif fam == "box":
+        g = {"kind": "box", "args": dict(r1=2e-3 * s, r2=4e-3 * s, depth=11e-3 * s * U(0.95, 1.05), usable_width=31e-3 * s,
+                                        ground_width=25e-3 * s)}
+        s2 = s * 0.9
+    else:
+        if k % 2 == 0:
+            g = {"kind": "diamond", "args": dict(r1=3e-3 * s, r2=5e-3 * s, usable_width=40e-3 * s * U(0.97, 1.05),
+                                            tip_depth=11.5e-3 * s)}
+        else:
+            g = {"kind": "square", "args": dict(r1=3e-3 * s, r2=4e-3 * s, usable_width=30e-3 * s * U(0.98, 1.03),
+                                           tip_depth=15e-3 * s)}
+            s2 = s * 0.82
+    return {"groove": g, "radius": 160e-3 * U(0.8, 1.2), "gap": 2e-3 * s2 * U(0.7, 1.3)}, s2
+
+
+def _scale_after(fam, n):
+    s = 1.0
+    for k in range(n):
+        if fam == "box":
+            s *= 0.9
+        elif k % 2 == 1:
+            s *= {"oval-round": 0.8, "three-oval-round": 0.85}.get(fam, 0.82)
+    return s
+
+
 def gen_desc(rng, force=None, pool=None):
     force = force or {}
-    fam = force.get("family") or rng.choice(["oval-round", "oval-round", "oval-round", "box", "diamond-square"])
+    # every kind of roll pass the package has: two-roll passes (RollPass) and three-roll passes
+    three = force.get("pass_kind") == "three" or ("family" not in force and "pass_kind" not in force and rng.random() < 0.15)
+    fam = force.get("family") or ("three-oval-round" if three else
+                                  rng.choice(["oval-round", "oval-round", "oval-round", "box", "diamond-square"]))
     n = force.get("n") or rng.choice([2, 2, 3, 3, 4, 5])
     s = 1.0
     passes = []
     U = rng.uniform
     for k in range(n):
-        if fam == "oval-round":
-            if k % 2 == 0:
-                g = {"kind": "oval", "args": dict(depth=8e-3 * s * U(0.95, 1.05), r1=6e-3 * s, r2=40e-3 * s * U(0.95, 1.1))}
-            else:
-                g = {"kind": "round", "args": dict(r1=1e-3 * s, r2=12.5e-3 * s * U(0.98, 1.04), depth=11.5e-3 * s)}
-                s *= 0.8
-        elif fam == "box":
-            g = {"kind": "box", "args": dict(r1=2e-3 * s, r2=4e-3 * s, depth=11e-3 * s * U(0.95, 1.05), usable_width=31e-3 * s,
-                                            ground_width=25e-3 * s)}
-            s *= 0.9
-        else:
-            if k % 2 == 0:
-                g = {"kind": "diamond", "args": dict(r1=3e-3 * s, r2=5e-3 * s, usable_width=40e-3 * s * U(0.97, 1.05),
-                                                tip_depth=11.5e-3 * s)}
-            else:
-                g = {"kind": "square", "args": dict(r1=3e-3 * s, r2=4e-3 * s, usable_width=30e-3 * s * U(0.98, 1.03),
-                                               tip_depth=15e-3 * s)}
-                s *= 0.82
-        passes.append({"groove": g, "radius": 160e-3 * U(0.8, 1.2), "gap": 2e-3 * s * U(0.7, 1.3)})
-    skind = force.get("spread") or rng.choice(["none", "fill", "fill", "draught", "draught", "vfill", "vfill", "vdraught"])
+        p, s = _gen_pass(rng, fam, k, s)
+        passes.append(p)
+    if three:
+        # (the draught power law is a spread model for two-roll passes)
+        skind = force.get("spread") or rng.choice(["none", "fill", "fill", "fill", "vfill", "vfill"])
+    else:
+        skind = force.get("spread") or rng.choice(["none", "fill", "fill", "draught", "draught", "vfill", "vfill", "vdraught"])
     sp = {"kind": skind}
     if skind != "none":
         sp["where"] = "core" if rng.random() < 0.2 else "subclass"
@@ -217,15 +431,18 @@ def gen_desc(rng, force=None, pool=None):
             speed = math.exp(U(math.log(10), math.log(60)))     # makes running out of budget likely
         sp["vref"] = speed * U(0.5, 2)
     desc = {"family": fam, "passes": passes, "transports": [U(0.5, 3) for _ in range(max(n - 1, 0))],
-            "in_diameter": {"oval-round": 30e-3, "box": 30e-3, "diamond-square": 32e-3}[fam] * U(0.96, 1.03),
+            "in_diameter": IN_DIAMETER[fam] * U(0.96, 1.03),
             "spread": sp, "mode": mode, "speed": speed,
             "final_area_factor": rng.choice([1.0, U(0.8, 1.2)]),
             "budget": budget}
+    if three:
+        desc["pass_kind"] = "three"
     # (no transport in front of the first pass: Transport.velocity of a first unit raises IndexError - finding F13 of C16)
     if rng.random() < 0.15:
         desc["tail_transport"] = U(0.5, 2)
     if not force.get("plain"):
         decorate(rng, desc, pool)
+        decorate_call(rng, desc)
     return desc
 
 
@@ -346,6 +563,88 @@ def decorate(rng, desc, pool=None):
         desc["mill"] = True
 
 
+def decorate_call(rng, desc):
+    """further things "every sequence / every incoming profile / every prescribed speed" ranges over (about a fifth each):
+      * the prescribed speed written as an integer or handed over as a numpy scalar (`final_speed=10`),
+      * an incoming profile that already carries results of an upstream unit (velocity, t, x, length, strain) - either
+        given at construction or really handed over by an upstream unit,
+      * rolls defined with a rotational frequency (the velocity calculation then overrides what the rolls would give),
+      * a line that was RE-ARRANGED after something had already happened to the sequence object (a calculation, a plain
+        solve, lists read): stands added behind / in front, a stand exchanged, stands removed - through
+        PassSequence.append/prepend/drop or through the live list `sequence.subunits`."""
+    n = len(desc["passes"])
+    U = rng.uniform
+    if n == 0:
+        return
+    if rng.random() < 0.2:
+        desc["speed_type"] = rng.choice(SPEED_TYPES)
+        if "int" in desc["speed_type"]:
+            desc["speed"] = float(max(1, round(desc["speed"])))
+    if rng.random() < 0.2:
+        if rng.random() < 0.5:
+            desc["in_extras"] = {"via": "upstream", "velocity": math.exp(U(math.log(0.2), math.log(30))), "length": U(0.5, 3)}
+        else:
+            pool = {"velocity": math.exp(U(math.log(0.2), math.log(30))), "t": U(1, 100), "x": U(1, 50), "length": U(1, 20),
+                    "strain": U(0.05, 0.5)}
+            keys = ["velocity"] + rng.sample(["t", "x", "length", "strain"], rng.choice([0, 1, 2]))
+            if rng.random() < 0.2:
+                keys = keys[1:] or ["t"]
+            desc["in_extras"] = {k: pool[k] for k in keys}
+    if not desc.get("mill") and rng.random() < 0.2:
+        desc["roll_frequency"] = [math.exp(U(math.log(0.2), math.log(20))) for _ in range(n)]
+    if n >= 2 and rng.random() < 0.2:
+        arrange(rng, desc)
+
+
+def arrange(rng, desc, kind=None, via=None, filler=None):
+    """the line under test (desc["passes"]) is the result of a re-arrangement of a sequence object that was used before"""
+    n = len(desc["passes"])
+    U = rng.uniform
+    fam = desc["family"]
+    kind = kind or rng.choice(["tail", "tail", "exchange", "exchange", "head", "remove"])
+    arr = {"kind": kind, "via": via or rng.choice(ARRANGE_VIA[kind])}
+    if kind in ("tail", "head"):
+        arr["k"] = 1 if n == 2 else rng.choice([1, 1, 2])
+    elif kind == "exchange":
+        j = rng.randrange(n)
+        old = json.loads(json.dumps(desc["passes"][j]))
+        old["gap"] *= U(1.1, 1.4)
+        old["radius"] *= U(0.85, 1.1)
+        arr["index"], arr["old"] = j, old
+    else:
+        m = rng.choice([1, 1, 2])
+        s = _scale_after(fam, n)
+        arr["extra"], arr["extra_transports"] = [], []
+        for k in range(n, n + m):
+            p, s = _gen_pass(rng, fam, k, s)
+            arr["extra"].append(p)
+            arr["extra_transports"].append(U(0.5, 3))
+    # what happened to the sequence object before the re-arrangement: whatever is already in the history, else one of these
+    pre = list(desc.get("pre") or [])
+    filler = filler or rng.choice(["calc", "calc", "calc-other", "solve", "seqread", "seqread", "none"])
+    if kind == "head" and filler in ("calc", "calc-other", "solve"):
+        tolerate = True                      # the stock may not fit the later stands alone: an attempt that fails is history too
+    else:
+        tolerate = False
+    if not pre:
+        if filler.startswith("calc"):
+            other = {"b": "f", "f": "b"}[desc["mode"]]
+            pre.append({"op": "calc", "mode": desc["mode"] if filler == "calc" else other,
+                        "speed": desc["speed"] * rng.choice([U(0.3, 0.8), 1.0, U(1.3, 3)]), "final_area_factor": 1.0})
+        elif filler == "solve":
+            pre.append({"op": "solve"})
+        elif filler == "seqread":
+            pre.append({"op": "seqread", "what": rng.sample(SEQ_READS, rng.choice([1, 2, 3]))})
+        if pre and tolerate:
+            pre[-1]["tolerate"] = True
+    pre.append({"op": "rearrange"})
+    if rng.random() < 0.3:
+        pre.append({"op": "seqread", "what": rng.sample(SEQ_READS, rng.choice([1, 2]))})
+    desc["arrange"] = arr
+    desc["pre"] = pre
+    return desc
+
+
 def _test_seq(mode):
     """the sequence of tests/pass_sequence/test_pass_sequence_*_velocity_calculation.py"""
     return {"family": "oval-round", "passes": [
@@ -356,9 +655,77 @@ def _test_seq(mode):
         "mode": mode, "speed": 1.5, "final_area_factor": 1.0, "budget": None}
 
 
+def _test_seq3(mode):
+    """a line of three-roll passes: the two stands of tests/test_solve3.py and a third one sized by the generator's rule"""
+    s = _scale_after("three-oval-round", 2)
+    return {"family": "three-oval-round", "pass_kind": "three", "passes": [
+        {"groove": {"kind": "oval", "args": dict(depth=8e-3, r1=6e-3, r2=40e-3, pad_angle=30)}, "radius": 160e-3, "gap": 2e-3},
+        {"groove": {"kind": "round", "args": dict(r1=3e-3, r2=25e-3, depth=11e-3, pad_angle=30)}, "radius": 160e-3, "gap": 2e-3},
+        {"groove": {"kind": "oval", "args": dict(depth=8e-3 * s, r1=6e-3 * s, r2=40e-3 * s, pad_angle=30)}, "radius": 160e-3, "gap": 2e-3 * s}],
+        "transports": [1, 1], "in_diameter": 55e-3, "spread": {"kind": "fill", "fill": 0.9, "where": "subclass"},
+        "mode": mode, "speed": 1.5, "final_area_factor": 1.0, "budget": None}
+
+
+def call_corpus():
+    """one case per way of writing the speed, kind of roll pass, content of the incoming profile and kind of re-arrangement
+    (see `decorate_call`), on the lines of the test suite"""
+    out = []
+
+    def seq(mode, n=3, three=False, **kw):
+        d = _test_seq3(mode) if three else _test_seq(mode)
+        d["passes"] = d["passes"][:n]
+        d["transports"] = d["transports"][:n - 1]
+        d.update(kw)
+        return d
+    # the prescribed speed as an integer / numpy scalar
+    out.append(seq("b", 3, speed=10.0, speed_type="int"))
+    out.append(seq("b", 2, speed=25.0, speed_type="np.int64", final_area_factor=0.9))
+    out.append(seq("f", 2, speed=2.0, speed_type="int"))
+    out.append(seq("b", 2, speed=7.5, speed_type="np.float64"))
+    # three-roll passes: plain, spread model on the core class, velocity-dependent filling, rolls with a neutral plane
+    out.append(seq("b", 3, three=True, speed=20.0, final_area_factor=0.93))
+    out.append(seq("f", 2, three=True, speed=5.0))
+    out.append(seq("b", 2, three=True, speed=8.0, spread={"kind": "fill", "fill": 0.92, "where": "core"}))
+    out.append(seq("f", 2, three=True, speed=12.0, spread={"kind": "vfill", "fill": 0.9, "c": 0.1, "vref": 6.0, "where": "subclass"}))
+    out.append(seq("b", 2, three=True, speed=6.0, neutral={"kind": "point", "values": [-15e-3, -25e-3]}, mill=True))
+    # the incoming profile carries values: given at construction / handed over by an upstream unit
+    out.append(seq("b", 2, speed=6.0, in_extras={"velocity": 3.0}))
+    out.append(seq("f", 2, speed=5.0, in_extras={"via": "upstream", "velocity": 1.2, "length": 2.0}))
+    out.append(seq("b", 2, speed=2.0, in_extras={"t": 12.0, "x": 3.0, "strain": 0.2}))
+    out.append(seq("b", 2, three=True, speed=6.0, in_extras={"velocity": 3.0}))
+    out.append(seq("f", 2, three=True, speed=2.0, in_extras={"velocity": 0.4, "t": 30.0, "length": 4.0}))
+    out.append(seq("f", 3, three=True, speed=5.0, in_extras={"via": "upstream", "velocity": 1.2, "length": 2.0}))
+    # rolls defined with a rotational frequency
+    out.append(seq("b", 2, speed=5.0, roll_frequency=[1.0, 1.0]))
+    out.append(seq("f", 2, speed=1.0, roll_frequency=[0.5, 2.0], neutral={"kind": "angle", "values": [-0.1, -0.2]}))
+    # a line that was re-arranged after the sequence object had been used (with and without roll speeds of their own: a
+    # stand the calculation does not reach keeps its roll-driven velocity, resp. cannot be solved at all)
+    calc = lambda mode, speed: {"op": "calc", "mode": mode, "speed": speed, "final_area_factor": 1.0}
+    arr = lambda d, **a: dict(d, arrange=a)
+    third = _test_seq("b")["passes"][2]
+    out.append(arr(seq("b", 3, speed=12.0, roll_frequency=[1.0, 1.0, 1.0], pre=[calc("b", 8.0), {"op": "rearrange"}]),
+                   kind="tail", via="subunits.extend", k=1))
+    out.append(arr(seq("b", 2, speed=12.0, pre=[calc("b", 8.0), {"op": "rearrange"}]), kind="tail", via="subunits+=", k=1))
+    old = {"groove": {"kind": "round", "args": dict(r1=1e-3, r2=12.5e-3, depth=11.5e-3)}, "radius": 180e-3, "gap": 3e-3}
+    out.append(arr(seq("f", 2, speed=2.0, roll_frequency=[1.0, 1.0], pre=[calc("f", 2.0), {"op": "rearrange"}]),
+                   kind="exchange", via="setitem", index=1, old=old))
+    out.append(arr(seq("b", 2, speed=3.0, pre=[{"op": "seqread", "what": ["roll_passes", "len"]}, {"op": "rearrange"},
+                                               {"op": "seqread", "what": ["units"]}]),
+                   kind="exchange", via="del+insert", index=1, old=old))
+    out.append(arr(seq("f", 2, speed=1.0, roll_frequency=[1.0, 1.0], pre=[{"op": "seqread", "what": ["roll_passes"]}, {"op": "rearrange"}]),
+                   kind="head", via="subunits.insert-front", k=1))
+    out.append(arr(seq("b", 2, speed=4.0, pre=[dict(calc("b", 2.0), tolerate=True), {"op": "rearrange"}]), kind="head", via="prepend", k=1))
+    out.append(arr(seq("b", 2, speed=9.0, roll_frequency=[1.0, 1.0], pre=[calc("b", 14.0), {"op": "rearrange"}]),
+                   kind="remove", via="del-slice", extra=[third], extra_transports=[1.0]))
+    out.append(arr(seq("b", 2, three=True, speed=10.0, roll_frequency=[1.0, 1.0], pre=[{"op": "solve"}, {"op": "rearrange"}]),
+                   kind="tail", via="subunits.append", k=1))
+    return out
+
+
 def corpus(pool=None):
     out = [_test_seq("b"), _test_seq("f")]
     out += history_corpus(pool)
+    out += call_corpus()
     for mode in "bf":
         for budget, sk, speed in ((2, "fill", 5.0), (3, "fill", 5.0), (2, "vfill", 50.0), (3, "vdraught", 40.0), (None, "none", 0.5),
                                   (None, "vdraught", 20.0)):
@@ -454,7 +821,8 @@ def _read_path(obj, path):
         return None
 
 
-def _call(seq, in_profile, mode, speed, final_area_factor, usable):
+def _call(seq, in_profile, mode, speed, final_area_factor, usable, speed_type=None):
+    speed = _num(speed, speed_type)
     if mode == "b":
         aux = (usable[-1] if usable else 4e-4) * final_area_factor
         seq.solve_velocities_backward(in_profile, speed, aux)
@@ -464,51 +832,87 @@ def _call(seq, in_profile, mode, speed, final_area_factor, usable):
     return aux
 
 
+def _usable(passes):
+    return [float(rp.usable_cross_section.area) for rp in passes]
+
+
+def _seq_read(seq, what):
+    """read-only use of the sequence object, the way user code looks at a line"""
+    if what == "roll_passes":
+        return len(seq.roll_passes)
+    if what == "units":
+        return len(seq.units)
+    if what == "transports":
+        return len(seq.transports)
+    if what == "subunits":
+        return len(seq.subunits)
+    if what == "len":
+        return len(seq)
+    if what == "iter":
+        return [u.label for u in seq]
+    if what == "getitem-last":
+        return seq[-1].label
+    if what == "by-label":
+        return seq[seq[0].label].label
+    raise ValueError(what)
+
+
 def run_history(b, desc, o):
     """what happened to the sequence object before the call under test (desc["pre"])"""
     seq = b.seq
     for op in desc.get("pre") or []:
         prof = b.in_profile if desc.get("reuse_in_profile") else b.make_in_profile()
-        if op["op"] == "velocities":
-            for rp, v in zip(seq.roll_passes, op["values"]):
-                rp.velocity = v
-        elif op["op"] == "solve":
-            if not all(rp.has_set("velocity") for rp in seq.roll_passes):
-                for rp in seq.roll_passes:
-                    rp.velocity = 1.0
-            seq.solve(prof)
-        elif op["op"] == "calc":
-            _call(seq, prof, op["mode"], op["speed"], op["final_area_factor"], o.usable)
-        elif op["op"] == "other":
-            # a calculation on ANOTHER sequence object in the same process (whatever the code keeps outside the objects)
-            d2 = _test_seq(op["mode"])
-            d2["passes"], d2["transports"], d2["speed"] = d2["passes"][:2], d2["transports"][:1], op["speed"]
-            b2 = build(d2)
-            try:
-                u2 = [float(rp.usable_cross_section.area) for rp in b2.seq.roll_passes]
-                _call(b2.seq, b2.in_profile, op["mode"], op["speed"], 1.0, u2)
-            finally:
-                for c in b2.cleanup:
-                    c()
-        elif op["op"] == "read":
-            for rp in seq.roll_passes:
-                for path in op["what"]:
-                    _read_path(rp, path)
-        else:
-            raise ValueError(op)
+        try:
+            if op["op"] == "velocities":
+                for rp, v in zip(b.current, op["values"]):
+                    rp.velocity = v
+            elif op["op"] == "solve":
+                if not all(rp.has_set("velocity") for rp in b.current):
+                    for rp in b.current:
+                        rp.velocity = 1.0
+                seq.solve(prof)
+            elif op["op"] == "calc":
+                _call(seq, prof, op["mode"], op["speed"], op["final_area_factor"], _usable(b.current), op.get("speed_type"))
+            elif op["op"] == "other":
+                # a calculation on ANOTHER sequence object in the same process (whatever the code keeps outside the objects)
+                d2 = _test_seq(op["mode"])
+                d2["passes"], d2["transports"], d2["speed"] = d2["passes"][:2], d2["transports"][:1], op["speed"]
+                b2 = build(d2)
+                try:
+                    _call(b2.seq, b2.in_profile, op["mode"], op["speed"], 1.0, _usable(b2.current))
+                finally:
+                    for c in b2.cleanup:
+                        c()
+            elif op["op"] == "read":
+                for rp in b.current:
+                    for path in op["what"]:
+                        _read_path(rp, path)
+            elif op["op"] == "seqread":
+                for what in op["what"]:
+                    _seq_read(seq, what)
+            elif op["op"] == "rearrange":
+                b.rearrange()
+            else:
+                raise ValueError(op)
+        except Exception as ex:
+            if not (op.get("tolerate") and _from_pyroll(ex)):
+                raise
+            o.tolerated = type(ex).__name__      # an attempt that failed is part of the object's history as well
+    b.rearrange()                                # (a description without an explicit rearrange step)
 
 
 def run_real(desc):
     """execute the case; harness errors propagate, exceptions from inside pyroll are returned in o.error"""
+    from pyroll.core import BaseRollPass
     o = Outcome()
     b = build(desc)
     try:
         seq = b.seq
-        o.n = len(seq.roll_passes)
         o.error = None
         o.pre_error = None
+        o.tolerated = None
+        o.arrangement_ok = True
         try:
-            o.usable = [float(rp.usable_cross_section.area) for rp in seq.roll_passes]
             o.budget = int(seq.max_iteration_count)
             try:
                 run_history(b, desc, o)
@@ -517,9 +921,16 @@ def run_real(desc):
                     raise
                 o.pre_error = ex
                 raise
+            finally:
+                # the line under test: the roll passes the harness itself has put there
+                o.n = len(b.current)
+                o.usable = _usable(b.current)
+                o.unit_kinds = [isinstance(u, BaseRollPass) for u in (b.final_units if b.rearranged else b.initial_units)]
+            # (independent of PassSequence.roll_passes: the units one gets by iterating over the sequence)
+            o.arrangement_ok = [id(u) for u in seq] == [id(u) for u in b.final_units]
             del b.rec[:]                     # only the call under test is compared with the model
             prof = b.in_profile if desc.get("reuse_in_profile") else b.make_in_profile()
-            o.aux = _call(seq, prof, desc["mode"], desc["speed"], desc["final_area_factor"], o.usable)
+            o.aux = _call(seq, prof, desc["mode"], desc["speed"], desc["final_area_factor"], o.usable, desc.get("speed_type"))
         except Exception as ex:
             if not _from_pyroll(ex):
                 raise
@@ -531,22 +942,29 @@ def run_real(desc):
         o.written = [r[1] for r in b.rec if r[0] == "v"]       # velocities on the passes before every solve call
         o.areas = [r[1] for r in b.rec if r[0] == "A"]         # out areas after every solve call
         if o.error is None:
-            ps = seq.roll_passes
-            # the roll speeds first: nothing else has been read on the rolls since the call returned
-            o.freq = [float(rp.roll.rotational_frequency) for rp in ps]
-            o.wv = []
-            for rp in ps:
-                r = rp.roll
-                wv = float(r.working_velocity)
-                ang = float(r.neutral_angle) if r.has_value("neutral_angle") else float(r.exit_angle)
-                o.wv.append((wv, ang))
-            o.v = [float(rp.velocity) for rp in ps]
-            o.A = [float(rp.out_profile.cross_section.area) for rp in ps]
-            o.v_in = [float(rp.in_profile.velocity) for rp in ps]
-            o.A_in = [float(rp.in_profile.cross_section.area) for rp in ps]
-            o.v_out = [float(rp.out_profile.velocity) for rp in ps]
-            o.vflux = [float(rp.volume_flux) for rp in ps]
-            o.prec = [float(rp.iteration_precision) for rp in ps]
+            ps = b.current
+            try:
+                # the roll speeds first: nothing else has been read on the rolls since the call returned
+                o.freq = [float(rp.roll.rotational_frequency) for rp in ps]
+                o.wv = []
+                for rp in ps:
+                    r = rp.roll
+                    wv = float(r.working_velocity)
+                    ang = float(r.neutral_angle) if r.has_value("neutral_angle") else float(r.exit_angle)
+                    o.wv.append((wv, ang))
+                o.v = [float(rp.velocity) for rp in ps]
+                o.A = [float(rp.out_profile.cross_section.area) for rp in ps]
+                o.v_in = [float(rp.in_profile.velocity) for rp in ps]
+                o.A_in = [float(rp.in_profile.cross_section.area) for rp in ps]
+                o.v_out = [float(rp.out_profile.velocity) for rp in ps]
+                o.vflux = [float(rp.volume_flux) for rp in ps]
+                o.prec = [float(rp.iteration_precision) for rp in ps]
+                o.set_v = [bool(rp.has_set("velocity")) for rp in ps]
+            except Exception as ex:
+                # the call returned normally, but a roll pass of the line has no velocity / was never solved
+                if not (_from_pyroll(ex) or isinstance(ex, (AttributeError, TypeError))):
+                    raise
+                o.unreadable = ex
         return o
     finally:
         for c in b.cleanup:
@@ -567,7 +985,7 @@ def run_mill(desc, freqs):
                 raise
             m.error = ex
             return m
-        ps = b.seq.roll_passes
+        ps = b.current
         m.v = [float(rp.velocity) for rp in ps]
         m.A = [float(rp.out_profile.cross_section.area) for rp in ps]
         m.prec = [float(rp.iteration_precision) for rp in ps]
@@ -580,9 +998,9 @@ def run_mill(desc, freqs):
 def solvable_without_velocity_calculation(desc):
     """control for a case on which the velocity calculation raised: the same sequence, velocity 1.0 set by hand on every
     pass, plain `solve`.  Only meaningful for spread models that do not look at the velocity."""
-    b = build(desc)
+    b = build(desc, fresh=True)
     try:
-        for rp in b.seq.roll_passes:
+        for rp in b.current:
             rp.velocity = 1.0
         try:
             b.seq.solve(b.in_profile)
@@ -620,12 +1038,22 @@ def oracle(ctx, desc, o):
         return bad
     if o.error is not None or o.n < 2:
         return bad
+    if not o.arrangement_ok:
+        ctx.count("line-not-as-arranged")    # the container did not do what was asked of it: not this property's business
+        return bad
     iters = len(o.written) - 1
     finished = iters < o.budget or (iters >= 1 and stop_test(o.written[-2], o.written[-1]))
     if not finished:
         ctx.count("budget-exhausted")        # the property claims nothing; the call returned normally all the same
         return bad
     ctx.count("finished-within-budget")
+    hist = _history_text(desc)
+    if getattr(o, "unreadable", None) is not None:
+        # "the same in EVERY roll pass": a roll pass of the line that has no velocity / no profiles after the calculation
+        # finished carries no flux at all
+        bad.append(("roll-pass-without-result", f"the calculation returned normally, but reading velocity / profiles / flux of the "
+                    f"line's roll passes raised {type(o.unreadable).__name__}: {str(o.unreadable)[:160]}{hist}"))
+        return bad
     anchor = o.n - 1 if desc["mode"] == "b" else 0
     phi = o.v[anchor] * o.A[anchor]
     # (1) equal flux within the loop tolerance: every pass velocity is within 0.01 of the velocity that carries the
@@ -634,7 +1062,7 @@ def oracle(ctx, desc, o):
         if not abs(o.v[i] - phi / o.A[i]) < LOOP_TOL * (1 + 1e-9):
             bad.append((f"flux-differs-{'backward' if desc['mode'] == 'b' else 'forward'}",
                         f"pass {i}: velocity {o.v[i]!r} * out area {o.A[i]!r} = {o.v[i] * o.A[i]!r}, flux of pass {anchor} is "
-                        f"{phi!r}; equal flux needs velocity {phi / o.A[i]!r} (off by {abs(o.v[i] - phi / o.A[i])!r} >= {LOOP_TOL})"))
+                        f"{phi!r}; equal flux needs velocity {phi / o.A[i]!r} (off by {abs(o.v[i] - phi / o.A[i])!r} >= {LOOP_TOL}){hist}"))
             break
     # (2) entry and exit velocities carry the same flux.  out.velocity is the pass velocity; in.velocity is evaluated
     #     one solve-iteration before the final out cross-section, hence the pass's iteration precision enters.
@@ -645,7 +1073,8 @@ def oracle(ctx, desc, o):
         tol = LOOP_TOL + 3 * o.prec[i] * abs(o.v[i])
         if not abs(o.v_in[i] * o.A_in[i] / o.A[i] - o.v[i]) <= tol:
             bad.append(("in-out-flux-differs", f"pass {i}: in velocity*area {o.v_in[i] * o.A_in[i]!r} vs out "
-                        f"{o.v[i] * o.A[i]!r} (velocity equivalent off by {abs(o.v_in[i] * o.A_in[i] / o.A[i] - o.v[i])!r} > {tol!r})"))
+                        f"{o.v[i] * o.A[i]!r} (velocity equivalent off by {abs(o.v_in[i] * o.A_in[i] / o.A[i] - o.v[i])!r} > {tol!r})"
+                        + (f"; the incoming profile carried {desc['in_extras']!r}" if desc.get("in_extras") else "") + hist))
             break
     #     The flux a pass reports (`Unit.volume_flux`, pyroll/core/unit/hookimpls.py) is that same flux, in velocity units
     #     within the loop tolerance + the pass's iteration precision (a value that was read before the call is cached and
@@ -658,15 +1087,15 @@ def oracle(ctx, desc, o):
             break
     # (3) backward: the last pass runs at exactly the prescribed final speed
     if desc["mode"] == "b" and not o.v[-1] == float(desc["speed"]):
-        bad.append(("backward-final-speed", f"last pass velocity {o.v[-1]!r} != prescribed final speed {desc['speed']!r}"
-                    + (f" (history of the sequence object: {desc['pre']!r})" if desc.get("pre") else "")
+        bad.append(("backward-final-speed", f"last pass velocity {o.v[-1]!r} != prescribed final speed "
+                    f"{_num(desc['speed'], desc.get('speed_type'))!r}{hist}"
                     + (f" (passes constructed with velocities {desc['construct_velocities']!r})" if desc.get("construct_velocities") else "")))
     # (5) interpretation: the velocities of the passes are the velocities the ROLLS drive them at (an explicit pass velocity
     #     drives the roll's working velocity).  So the mill set to the roll speeds the calculation resulted in - same
     #     sequence, no pass velocity given, one plain solve - shows the same picture: every pass at its calculated velocity
     #     (up to the rounding of velocity -> rotational frequency -> velocity), equal flux, last pass at the final speed.
     #     The plain solve starts from scratch, so its areas are only as good as the passes' iteration precision.
-    if desc.get("mill") and not bad:
+    if desc.get("mill") and not desc.get("roll_frequency") and not bad:
         m = run_mill(desc, o.freq)
         d_ = "backward" if desc["mode"] == "b" else "forward"
         if m.error is not None:
@@ -699,13 +1128,35 @@ def oracle(ctx, desc, o):
     return bad
 
 
+def _history_text(desc):
+    t = ""
+    if desc.get("speed_type"):
+        t += f" (speed given as {desc['speed_type']})"
+    if desc.get("pass_kind"):
+        t += f" ({desc['pass_kind']}-roll passes)"
+    if desc.get("arrange"):
+        a = desc["arrange"]
+        t += f" (line re-arranged before the call: {a['kind']} via {a['via']})"
+    if desc.get("pre"):
+        t += f" (history of the sequence object: {desc['pre']!r})"
+    return t
+
+
 def bits_vec(v):
     return ",".join(str(stub.bits(x)) for x in v) if v else "-"
 
 
+def units_token(o):
+    """the unit list of the sequence at the time of the call as the HARNESS arranged it: `t` for a unit that is no roll pass,
+    the usable area for a roll pass"""
+    us = iter(o.usable)
+    toks = [str(stub.bits(next(us))) if is_pass else "t" for is_pass in o.unit_kinds]
+    return ",".join(toks) if toks else "-"
+
+
 def model_line(desc, o):
     areas = ";".join(bits_vec(a) for a in o.areas) if o.areas and o.n else "-"
-    return f"run {desc['mode']} {o.budget} {stub.bits(desc['speed'])} {stub.bits(o.aux)} {bits_vec(o.usable)} {areas}"
+    return f"run {desc['mode']} {o.budget} {stub.bits(desc['speed'])} {stub.bits(o.aux)} {units_token(o)} {areas}"
 
 
 def compare_model(ctx, desc, o, out):
@@ -782,7 +1233,7 @@ def _slice(desc, start, m):
     cut = lambda xs: xs[start:start + m]
     d["passes"] = cut(desc["passes"])
     d["transports"] = desc["transports"][:m - 1]
-    for k in ("pass_extras", "roll_extras", "construct_velocities"):
+    for k in ("pass_extras", "roll_extras", "construct_velocities", "roll_frequency"):
         if desc.get(k):
             d[k] = cut(desc[k])
     if desc.get("neutral"):
@@ -796,6 +1247,8 @@ def shrink(desc, fails):
     """fewer passes while the same key keeps failing"""
     best = desc
     n = len(desc["passes"])
+    if desc.get("arrange"):
+        return best                          # the re-arrangement refers to positions in this line
     for m in range(2, n):
         for start in range(0, n - m + 1):
             if start and desc["family"] != "box":
@@ -809,9 +1262,58 @@ def shrink(desc, fails):
     return best
 
 
+class _TooSlow(BaseException):
+    """raised by the harness's own watchdog (BaseException: pyroll wraps `Exception`s of sub-units into RuntimeError)"""
+
+
+CASE_TIME_LIMIT = 30.0     # seconds (quick tier: 12); an ordinary case takes 0.1 - 1.5 s
+
+
+def _limit(ctx):
+    return 12.0 if getattr(ctx, "tier", None) == "quick" else CASE_TIME_LIMIT
+
+
+class time_limit:
+    """Abandon a generated case that takes far too long.  Happens when a generated geometry gives a pass no reduction
+    (incoming profile lower than the groove): entry point, roll force, ... are NaN, `Unit.solve` compares NaN results, never
+    finds them unchanged and runs its full iteration count in every unit for every iteration of the sequence - minutes per
+    velocity calculation.  Nothing is claimed about an abandoned case (it is counted)."""
+
+    def __init__(self, seconds=CASE_TIME_LIMIT):
+        self.seconds = seconds
+        self.armed = False
+
+    def __enter__(self):
+        import signal
+        import threading
+        if threading.current_thread() is threading.main_thread() and hasattr(signal, "setitimer"):
+            def handler(signum, frame):
+                raise _TooSlow()
+            self.old = signal.signal(signal.SIGALRM, handler)
+            signal.setitimer(signal.ITIMER_REAL, self.seconds)
+            self.armed = True
+        return self
+
+    def __exit__(self, *exc):
+        if self.armed:
+            import signal
+            signal.setitimer(signal.ITIMER_REAL, 0)
+            signal.signal(signal.SIGALRM, self.old)
+        return False
+
+
 def run_case(ctx, desc, lines, pending, origin):
-    o = run_real(desc)
-    nontrivial = o.error is None and o.n >= 2 and any(abs(a / u - 1) > 1e-6 for a, u in zip(o.A, o.usable))
+    limit = _limit(ctx)
+    try:
+        with time_limit(limit):
+            o = run_real(desc)
+    except _TooSlow:
+        ctx.count(f"abandoned:case-slower-than-{limit:.0f}s")
+        o = Outcome()
+        o.error, o.n, o.written = RuntimeError("abandoned by the harness"), -1, []
+        return o
+    readable = o.error is None and getattr(o, "unreadable", None) is None
+    nontrivial = readable and o.n >= 2 and any(abs(a / u - 1) > 1e-6 for a, u in zip(o.A, o.usable))
     ctx.case(_canon(desc), nontrivial=nontrivial)
     ctx.count(f"mode:{desc['mode']}")
     ctx.count(f"passes:{o.n}")
@@ -821,6 +1323,17 @@ def run_case(ctx, desc, lines, pending, origin):
         ctx.count("history:" + op["op"] + (":" + ("same" if op["mode"] == desc["mode"] else "other") + "-direction" if op["op"] == "calc" else ""))
     if desc.get("reuse_in_profile"):
         ctx.count("history:same-in-profile-object")
+    ctx.count("pass-kind:" + desc.get("pass_kind", "two"))
+    ctx.count("speed-type:" + desc.get("speed_type", "float"))
+    if desc.get("in_extras"):
+        ctx.count("in-profile-carries:" + ("upstream-results" if desc["in_extras"].get("via") else
+                                           "+".join(sorted(desc["in_extras"]))))
+    if desc.get("roll_frequency"):
+        ctx.count("rolls-with-rotational-frequency")
+    if desc.get("arrange"):
+        ctx.count(f"arrange:{desc['arrange']['kind']}:{desc['arrange']['via']}")
+    if getattr(o, "tolerated", None):
+        ctx.count("history:failed-attempt:" + o.tolerated)
     if desc.get("mill"):
         ctx.count("mill-requested")
     if desc.get("construct_velocities"):
@@ -832,24 +1345,33 @@ def run_case(ctx, desc, lines, pending, origin):
             ctx.count(f"{k}:{nm}")
     if o.error is not None:
         ctx.count("raised:" + type(o.error).__name__)
-    else:
+    elif readable:
         ctx.count(f"iterations:{len(o.written) - 1}")
         for (wv, ang), v in zip(o.wv, o.v):
             if not stub.close(wv * math.cos(ang), v, rtol=1e-12):
                 ctx.disagreement(f"roll.working_velocity {wv!r} * cos({ang!r}) != explicit pass velocity {v!r}", {"case": desc})
                 break
-    bad = oracle(ctx, desc, o)
+    try:
+        with time_limit(limit):
+            bad = oracle(ctx, desc, o)       # (may re-simulate the mill / solve a control sequence)
+    except _TooSlow:
+        ctx.count(f"abandoned:oracle-slower-than-{limit:.0f}s")
+        bad = []
     for key, what in bad[:1]:
         def fails(d, key=key):
-            o2 = run_real(d)
-            return any(k2 == key for k2, _ in oracle(_Quiet(), d, o2))
+            try:
+                with time_limit(limit):
+                    o2 = run_real(d)
+                    return any(k2 == key for k2, _ in oracle(_Quiet(), d, o2))
+            except _TooSlow:
+                return False
         small = shrink(desc, fails)
         ctx.violation(key, what if small is desc else what + " (shrunk to fewer passes)",
                       {"case": small, "how": "driver.props.c19.run_real(case) then oracle; or ./check C19 --replay <this file>"})
     if ctx.model_available and (o.error is None or (o.n == 0 and not o.written)):
         lines.append(model_line(desc, o))
         pending.append((desc, o))
-    if origin == "random" and o.error is None and o.n >= 2:
+    if origin == "random" and readable and o.n >= 2:
         ctx.sample({"mode": desc["mode"], "speed": desc["speed"], "passes": [p["groove"]["kind"] for p in desc["passes"]],
                     "spread": desc["spread"], "budget": o.budget, "iterations": len(o.written) - 1,
                     "velocities": o.v, "out_areas": o.A}, limit=3)
@@ -873,6 +1395,30 @@ def anchored_hooks(ctx):
     return hooks
 
 
+def root_hook_coverage(ctx):
+    """K for `entry_exit_velocity_written_for_every_roll_pass`: the theorem reads the NAMES in the root hook list; here the
+    list of the imported package is asked, for every class of roll pass there is (all subclasses of BaseRollPass), whether
+    the entry and the exit velocity are among the hooks written in every solve iteration"""
+    from pyroll.core import root_hooks, BaseRollPass
+    seen, todo = [], [BaseRollPass]
+    while todo:
+        c = todo.pop()
+        if c not in seen:
+            seen.append(c)
+            todo.extend(c.__subclasses__())
+    for c in seen:
+        if not c.__module__.startswith("pyroll."):
+            continue
+        for prof in ("InProfile", "OutProfile"):
+            pc = getattr(c, prof)
+            ctx.count("root-hook-coverage-checked")
+            if any(h.name == "velocity" and issubclass(pc, h.owner) for h in root_hooks):
+                ctx.validated()
+            else:
+                ctx.disagreement(f"{c.__name__}.{prof}.velocity is not among the root hooks: the model takes it to be evaluated and "
+                                 f"written in every solve iteration for every kind of roll pass", {"class": c.__name__, "profile": prof})
+
+
 def run(ctx):
     import logging
     logging.getLogger("pyroll").setLevel(logging.ERROR)
@@ -880,6 +1426,8 @@ def run(ctx):
     attempted = succeeded = 0
     hooks = anchored_hooks(ctx)
     pool = extras_pool(hooks)
+    if ctx.model_available:
+        root_hook_coverage(ctx)
     for where in ("pass", "roll"):
         ctx.count(f"hooks-without-implementation:{where}", len(pool[where]))
     for d in corpus(pool):
@@ -932,7 +1480,7 @@ def replay(ctx, data):
     o = run_real(desc)
     if o.error is not None:
         print(f"[C19 replay] the implementation raised {type(o.error).__name__}: {o.error}")
-        return
     for key, what in oracle(ctx, desc, o):
         ctx.violation(key, what, {"case": desc})
-    print(f"[C19 replay] mode={desc['mode']} velocities={o.v} out_areas={o.A} flux={[v * a for v, a in zip(o.v, o.A)]}")
+    if o.error is None and getattr(o, "unreadable", None) is None:
+        print(f"[C19 replay] mode={desc['mode']} velocities={o.v} out_areas={o.A} flux={[v * a for v, a in zip(o.v, o.A)]}")
